@@ -7,7 +7,7 @@ CONSTANTS Thorough, Seed,
                      \* the kinds its own property is about: key agreement for C07 / C09)
 VARIABLES stage, a, b
 
-Kinds == << "encode", "decode_shared", "protect_unprotect", "ike_derive", "derive_child", "dh", "transforms", "eap", "rand", "new_ike_sa", "strings", "builders", "cipher", "transform_stress", "codec_stress", "eap_stress", "keys_stress", "encode_fail", "rand_stress", "decode_unknown", "reencode_shared", "derive_arena", "reject_then_accept", "decrypt_shared" >>
+Kinds == << "encode", "decode_shared", "protect_unprotect", "ike_derive", "derive_child", "dh", "transforms", "eap", "rand", "new_ike_sa", "strings", "builders", "cipher", "transform_stress", "codec_stress", "eap_stress", "keys_stress", "encode_fail", "rand_stress", "decode_unknown", "reencode_shared", "derive_arena", "reject_then_accept", "decrypt_shared", "reject_proposal" >>
 NK == Len(Kinds)
 Rep(k, n) == [i \in 1..n |-> k]
 Mixed(off, n) == [i \in 1..n |-> Kinds[((i + off) % NK) + 1]]
@@ -21,7 +21,7 @@ BigSet(n, k) == [fam |-> "race", n |-> n, gomaxprocs |-> Procs[(k % 3) + 1], rep
 \* many goroutines all running the same kind: maximal contention on whatever that kind shares (the random source, registries, scratch)
 SameSet(k, n) == [fam |-> "race", n |-> n, gomaxprocs |-> IF n > 16 THEN 16 ELSE 4, reps |-> IF Thorough THEN 4 ELSE 2,
                   programs |-> [g \in 1..n |-> Rep(Kinds[k], 3)]]
-SameKinds == IF Thorough THEN 1..NK ELSE { k \in 1..NK : Kinds[k] \in {"rand", "rand_stress", "encode_fail", "transform_stress", "keys_stress", "new_ike_sa", "decode_unknown", "dh", "derive_arena", "ike_derive", "reject_then_accept", "decode_shared", "decrypt_shared"} }
+SameKinds == IF Thorough THEN 1..NK ELSE { k \in 1..NK : Kinds[k] \in {"rand", "rand_stress", "encode_fail", "transform_stress", "keys_stress", "new_ike_sa", "decode_unknown", "dh", "derive_arena", "ike_derive", "reject_then_accept", "decode_shared", "decrypt_shared", "reject_proposal"} }
 
 InFocus(k) == Focus = {} \/ Kinds[k] \in Focus
 Init == stage = 0 /\ a = 0 /\ b = 0
